@@ -299,9 +299,9 @@ Definition is_scalar (v : yv) : bool :=
 
 (* the utf-16 re-encoding trick of wide/utf16/utf16be *)
 Definition wide_like (enc : N) (out_enc : N) (special : bool) (src : str) : outcome vk :=
-  if N.eqb enc 0 then Ok (KStr special out_enc src)
-  else if N.eqb enc 1 then SigmaErr EValue
-  else Crash X_Unmodelled.
+  if N.eqb enc 2 then Crash X_Unmodelled       (* other non-ASCII text: depends on the byte sequence *)
+  else if N.eqb enc 1 then SigmaErr EValue     (* U+FEFF re-encodes to FF FE, never valid UTF-8 *)
+  else Ok (KStr special out_enc src).
 
 (* contains / startswith / endswith on a regular expression: ".*" is put in front unless the pattern
    starts with ".*" or "^", and behind unless it ends with ".*" or "$" (both tests on the old text) *)
@@ -345,7 +345,8 @@ Definition apply_value_mod (m : md) (field_none applied : bool) (v : vk) : outco
            | YList _ | YMap _ => Crash X_Unmodelled     (* re.compile(str(v)) of a container *)
            | _ => Ok (KRegex None)                      (* str(v) of a scalar is a valid pattern *)
            end
-  | MRe, KStr _ _ _ => Crash X_Unmodelled               (* unreachable: with `re` every value is KRaw *)
+  | MRe, KStr _ _ s =>                                 (* (not reached from from_mapping: with `re` every value is KRaw) *)
+      if applied then SigmaErr EValue else if re_ok L s then Ok (KRegex (Some s)) else SigmaErr ERegex
   | MFlag, KRegex p => Ok (KRegex p)
   | MCmp, KNum => Ok KCompare
   | MTs, KNum => Ok KNum
